@@ -21,7 +21,7 @@ import itertools
 import logging
 import struct
 
-from common import Model, hx, exc_name, INTERNAL
+from common import Model, hx, exc_name, INTERNAL, Infra
 
 logging.disable(logging.CRITICAL)
 
@@ -34,7 +34,10 @@ THEOREMS = ["NfcVerif.C07." + t for t in (
     "pax_total", "pax_counterexample", "t3emu_total", "t3emu_counterexample",
     "dispatch_total", "peer_octets_dispatch_total", "linkloop_never_waits", "linkloop_never_waits_counterexample", "second_cc_ignored",
     "peer_bytes_flow", "peer_bytes_flow_counterexample", "flow_contains", "connect_returns_normally",
-    "card_loop_contains", "card_loop_counterexample")]
+    "card_loop_contains", "card_loop_counterexample",
+    "t3emu_total_any_services", "t3emu_status_flag_octet", "t3emu_status_flag_counterexample", "card_session_returns", "t3emu_response_framed",
+    "snep_request_total", "snep_request_safe", "snep_serve_total", "snep_request_is_c06",
+    "snep_client_get_total", "snep_client_put_total")]
 
 COMM = {"TimeoutError", "TransmissionError", "ProtocolError", "BrokenLinkError", "CommunicationError"}
 
@@ -461,6 +464,24 @@ def part_llc(cx):
             cases.append(agf([b]))
             if rng.random() < 0.15:
                 cases.append(agf([b"\x00\x00", b, hdr(36, 13, 32) + b"\x00"]))
+    # one aggregate carrying a PDU of EVERY type 0..15, each with the same octet class as payload / name / parameter value:
+    # dispatch formats every aggregated PDU eagerly (log.debug("     " + str(p))) before it looks at the type
+    for p in SPECIAL + [bytes([v]) for v in (0, 0x7f, 0x80, 0xc3, 0xff)]:
+        for k, f in enumerate(payload_forms(p)):
+            items = []
+            for t in range(16):
+                if t == 2:
+                    continue        # an aggregate inside an aggregate is refused as a whole
+                b = hdr({0: 0, 1: 0, 9: 1, 10: 0, 4: 1}.get(t, 36), t, {0: 0, 1: 0, 9: 1, 10: 0}.get(t, 32)) + f
+                try:
+                    pdu.decode(b)
+                    items.append(b)
+                except Exception:  # noqa - judged where the octets are injected on their own
+                    pass
+            cases.append(agf(items))
+            if k % 4 == 0 and len(items) > 2:
+                cases.append(agf(items[::-1]))
+                cases.append(agf([items[-1], items[1], items[-1], items[2], items[0]]))
     # formatting sweep without a controller: all 256 octet values in every position, all types
     nfmt = 0
     for b in nasty_pdus(True, world=False):
@@ -1033,10 +1054,14 @@ def run(ck):
         "llcp/sec.py is outside (sec=False in all runs); ndef.message_decoder (third party) is exercised, not modelled",
         "\"does not block for ever\" is decided as: no untimed Condition.wait() on the link-loop thread and every loop of the modelled "
         "decoders terminates; thread liveness itself is C09",
-        "application callbacks of the tag emulation return (tagtool's services); a write to the read-only service raises its own TypeError",
+        "application callbacks of the tag emulation return (tagtool's services: a write to the read-only service raises its own TypeError; "
+        "t3emu_total_any_services: any services whose read callbacks return None or at most 16 octets)",
+        "SNEP: decoder / process_get_request / process_put_request / encoder keep the contract AppOk (response codes are octets, only "
+        "ndef.DecodeError, ValueError, ndef.EncodeError are raised); send() does not raise EMSGSIZE (MIU >= 128 by LLCP; ties use MIU >= 6)",
         "the models agree with the code outside the compared inputs (the ties are exhaustive only where stated)",
     ]
-    ck.trusted += ["hand-written Lean models NfcVerif.Model.PeerDep/PeerPax/PeerDispatch (+ Pdu, NfcDep, T3Emu of C11/C04/C01), tied by differential runs",
+    ck.trusted += ["hand-written Lean models NfcVerif.Model.PeerDep/PeerPax/PeerDispatch/PeerT3Gen/PeerSnep (+ Pdu, NfcDep, T3Emu, Snep of C11/C04/C01/C06), tied by differential runs",
+                   "sims/peer_inject.py GenEmu (services of the emulated tag), _NdefProxy (records what ndef and the application did with each SNEP information field; the model takes it as its App parameter)",
                    "harness/sims/peer_inject.py, peer_llc.py (scripted peer, PeerCondition: an untimed wait on the link loop = hang)",
                    "fixes/C09/0001 (F39) is owned by C09; C07 models its effect"]
     ck.lean("NfcVerif.Props.C07", THEOREMS)
@@ -1056,14 +1081,22 @@ def run(ck):
     cx.model = Model("drv_c07")
     g = L.guarded(lambda: probe(P, L), 60)
     if g[0] != "ok":
-        if g[0] == "exc":
+        # the probe only runs witnesses of repaired defects through the real code: whatever goes wrong there is behaviour of the
+        # tree under test; go on with the repaired variants so that the ties and oracles locate it
+        if g[0] == "exc" and isinstance(g[1], (OSError, MemoryError, Infra)):
             raise g[1]
-        raise RuntimeError("variant probe: %s" % (g,))
+        orig_fail("c07-probe-unexpected-%s" % (exc_name(g[1]) if g[0] == "exc" else g[0]),
+                  "the witnesses of the repaired defects could not be replayed: %r" % (g[1],), {"position": "variant probe", "outcome": g[0]})
+        g = ("ok", {k: True for k in ("frame", "atr", "rtox", "gb", "t3", "f39", "cc")})
     cx.V = g[1]
     # afterDeselect: probe separately (needs the frame decoder to accept the follow-up frame)
     ATQ = bytes([0xD4, 0]) + bytes(13) + b"\x32" + b"Ffm\x01\x01\x11"
-    st, _ = P.dep_target("212F", ATQ, bytes([0xD4, 6, 0, 0, 0]), [fr("212F", bytes([0xD4, 8])), fr("212F", bytes([0xD4, 8]))], payloads=[b"\x01"])
-    cx.V["desel"] = not any(r == "exc AttributeError" for _, r in st)
+    try:
+        st, _ = P.dep_target("212F", ATQ, bytes([0xD4, 6, 0, 0, 0]), [fr("212F", bytes([0xD4, 8])), fr("212F", bytes([0xD4, 8]))], payloads=[b"\x01"])
+        cx.V["desel"] = not any(r == "exc AttributeError" for _, r in st)
+    except Exception as e:  # noqa
+        orig_fail("c07-probe-unexpected-%s" % exc_name(e), "DSL_REQ twice could not be replayed: %r" % (e,), {"position": "variant probe (after deselect)"})
+        cx.V["desel"] = True
     ck.notes.append("repairs present in the tree under test: " + ", ".join("%s=%d" % kv for kv in sorted(cx.V.items())))
     if not all(cx.V.values()):
         ck.notes.append("REGRESSION: repairs missing in the tree: %s - the theorems are about the repaired code; the ties use the as-found "
@@ -1072,12 +1105,38 @@ def run(ck):
         for exc, where, msg in P.PROBE.take():
             ck.fail("log-format-%s" % exc, "a log record of %s (%r) cannot be formatted: %s" % (where, msg, exc),
                     {"position": "formatting of a log record during " + part, "where": where, "message": msg})
+    from props import c07_more as M
+
+    def guarded_part(part):
+        # an exception that escapes a part does not take the other parts down: raised inside nfcpy it is a concrete failing
+        # execution of the code under test (seed/tier reproduce it), otherwise the correspondence run of that part is broken
+        try:
+            part(cx)
+        except (KeyboardInterrupt, SystemExit, OSError, MemoryError, Infra):
+            raise                   # machinery (model driver, file system), not the code under test
+        except Exception as e:  # noqa
+            import os
+            import traceback
+            from common import REPO, VERIF
+            tb = traceback.extract_tb(e.__traceback__)
+            frames = ["%s:%d %s" % (os.path.relpath(f.filename, REPO) if f.filename.startswith(REPO) else
+                                    os.path.relpath(f.filename, VERIF), f.lineno, f.name) for f in tb[-8:]]
+            inner = tb[-1].filename if tb else ""
+            name = part.__name__.replace("part_", "")
+            if inner.startswith(os.path.join(REPO, "src") + os.sep) and exc_name(e) in INTERNAL:
+                orig_fail("uncaught-internal-exception-%s" % type(e).__name__,
+                          "%s raised inside nfcpy (%s) ended the exploration of %s: %s" % (type(e).__name__, frames[-1], name, e),
+                          {"position": part.__name__, "exception": repr(e), "frames": frames})
+            else:
+                orig_fail("tie:exploration-aborted-%s" % name, "the harness could not complete %s: %s: %s" % (part.__name__, type(e).__name__, e),
+                          {"position": part.__name__, "exception": repr(e), "frames": frames})
     try:
-        part_dep_decode(cx)
+        guarded_part(part_dep_decode)
         # from here on with debug logging as an application would have it: every record is formatted
         P.enable_logging()
-        for part in (part_dep_protocol, part_gb, part_llc, part_user, part_flow, part_t3, part_snep):
-            part(cx)
+        for part in (part_dep_protocol, part_gb, part_llc, part_user, part_flow, part_t3, M.part_t3gen, part_snep,
+                     M.part_snep_model, M.part_handover):
+            guarded_part(part)
             log_errors(part.__name__)
         ck.notes.append("%d log records of the code under test formatted (str()/repr() of PDUs, sockets, targets, frames)" % P.PROBE.records)
     finally:
